@@ -20,10 +20,10 @@ CLAIMED = {
 CLAIMED.update({
     'C26': (
         'proxy symbolic execution (bvx/z3) of RpcNode.request over solver-chosen response-class sequences and symbolic status codes',
-        'Bounded symbolic model checking of the retry loop: the class of each of up to 7 responses (14 classes, incl. two-error bodies and bodies labelled JSON that do not parse) is chosen by the '
+        'Bounded symbolic model checking of the retry loop: the class of each of up to 7 responses (18 classes, incl. two-error bodies, bodies labelled JSON that do not parse and 4xx/401/404 responses whose body looks like a transient server error; also through RpcMultiNode with 2 and 3 nodes) is chosen by the '
         'solver and the status code inside the class is a symbolic integer; number of requests, every sleep delay and the returned/raised outcome (any other escaping exception included) are compared '
         'with the retry rule of the property on every path.',
-        'requests.request/sleep are stubs; 14 response classes; log formatting (json.dumps/pformat) stubbed to constants.',
+        'requests.request/sleep are stubs; 18 response classes; log formatting (json.dumps/pformat) stubbed to constants.',
         'DESIGN.md C26',
     ),
     'C27': (
